@@ -176,6 +176,11 @@ def handleSym : Handler := fun st op args =>
     | some n, some ms =>
       some (st, match canonical st.basis n ms with | .ok o => fmtMoveSeq o | .error e => fmtErr e)
     | _, _ => some (st, "bad-op")
+  | "scanon", size :: ms =>
+    match size.toNat?, parseMoveSeq ms with
+    | some n, some ms =>
+      some (st, match Spec.canon n ms with | some o => fmtMoveSeq o | none => "err")
+    | _, _ => some (st, "bad-op")
   | "canonchk", size :: ms =>
     match size.toNat?, parseMoveSeq ms with
     | some n, some ms => some (st, fmtR (canonCheck st.basis n ms))
